@@ -1,2 +1,3 @@
--- Root of the `OQuPyVerif` library: every module that `lake build` must check.
-import OQuPyVerif.Num.FloatModel
+-- Root of the `OQuPyVerif` library: every module that `lake build` (setup) must check.
+import OQuPyVerif.Props.C13
+import OQuPyVerif.Model.Proto
